@@ -151,10 +151,10 @@ theorem url_preserved (ep rq : List Char)
 path into the query (concrete witness; reproduced on the real code, see notes). -/
 example : splitTarget ("/a?b" ++ "?x=1").toList = ("/a".toList, "b?x=1".toList) := by decide
 
-/-- Host rule: the client's Host for an IP-addressed or keepHost server, else the server's own. -/
-theorem host_rule (s : ServerCfg) (clientHost : String) :
-    hostSent s clientHost = Spec.expectedHost (!s.addrIsHostName) s.keepHost clientHost s.hostPort := by
-  unfold hostSent Spec.expectedHost; rfl
+/-- (`hostSent` is textually the declarative `Spec.expectedHost`; the Host rule as a statement about the code is
+`host_rule` below, next to the regenerated ties.) -/
+example (s : ServerCfg) (clientHost : String) :
+    hostSent s clientHost = Spec.expectedHost (!s.addrIsHostName) s.keepHost clientHost s.hostPort := rfl
 
 /-- `checkAddrPattern` classifies by the host part for the four well-formed authority shapes. -/
 theorem addr_pattern_classifies (isIP : List Char → Bool) (name port : List Char)
@@ -353,7 +353,7 @@ theorem framing_established_by_fetch (dflt limit : Int) (r r' : Resp β)
 
 /-- What the mux hands to net/http for a well-framed response: no Content-Length, or exactly
 the number of bytes `io.Copy` will offer. -/
-theorem written_len_eq_declared (r : Resp β) (h : WellFramed ops r) :
+example (r : Resp β) (h : WellFramed ops r) :
     (writeOut ops r).declared = [] ∨ (writeOut ops r).declared = [toString (writeOut ops r).offered] := by
   unfold writeOut; exact h
 
@@ -730,6 +730,24 @@ theorem proxyHandle_regenerated_from_source (mirror : Option (Nat × Bool)) (mai
     Gen.FactsC03IR.proxyHandleIR mirror main cands = proxyHandle mirror main cands :=
   ⟨by decide, Proxy.proxyHandle_regenerated_from_source mirror main cands⟩
 
+/-- **Host rule, on the re-translated `prepareRequest`** (pool.go): whenever the request can be built, the Host the
+transport puts on the wire for it is the client's Host for an IP-addressed or `keepHost` server and the server's own
+`host[:port]` otherwise — the declarative `Spec.expectedHost` the judge evaluates on the backend's observation.
+(`isIP` of the server's host part is `!svr.addrIsHostName`, by `checkAddr_regenerated_from_source` /
+`addr_pattern_classifies`.) -/
+theorem host_rule {π : Type} (canon : String → String) (urlOK : String → Bool) (stub : π) (span : Option Unit)
+    (svr : ServerCfg) (q : PReq π) (hq : q.host ≠ "")
+    (hu : urlOK (targetURL svr.url q.escapedPath q.rawQuery) = true) :
+    ∃ o, Gen.FactsC03IR.prepareIR canon urlOK stub span svr false q = (false, some o) ∧
+      o.wireHost svr = Spec.expectedHost (!svr.addrIsHostName) svr.keepHost q.host svr.hostPort := by
+  refine ⟨prepareRequest canon hopHeaders svr false stub q, ?_, ?_⟩
+  · rw [Proxy.prepare_regenerated_from_source, hu]; rfl
+  · simp only [OutReq.wireHost, prepareRequest, Spec.expectedHost]
+    by_cases hh : (!svr.addrIsHostName || svr.keepHost) = true
+    · have : (q.host == "") = false := by simpa using hq
+      simp [hh, this]
+    · simp [hh]
+
 /-- The fields of the model's `prepareRequest` are the pieces the request-side theorems talk about:
 method and payload untouched (main pool), URL = `targetURL` (⇒ `url_preserved`), header = `cloneHeader`
 (⇒ `cloneHeader_strips_hop / keeps_e2e`), and the Host on the wire = `hostSent` (⇒ `host_rule`) whenever
@@ -1039,36 +1057,106 @@ theorem fetchFailing_not_stream (dflt limit : Int) (a : Nat) (h : ¬ Payload.nor
   simp only [h, if_false]
   split <;> simp
 
+/-- The backend is *honest*: a declared length is the number of bytes it sends. -/
+def HonestReply (b : BackendReply β) : Prop := 0 ≤ b.cl → b.cl.toNat = ops.len b.body
+
+/-- the same for a response inside the proxy -/
+def HonestResp (r : Resp β) : Prop := 0 ≤ r.cl → r.cl.toNat = ops.len r.payload.content
+
 /-- What the transport hands over is coherent (ContentLength field = Content-Length header) whenever the
 backend's reply is — also after its transparent gunzip, which drops both. -/
 theorem transportReply_coherent (method : String) (outHdr : Hdr) (b : BackendReply β)
     (hb : Coherent (⟨b.status, b.hdr, b.cl, .stream b.body⟩ : Resp β)) :
     Coherent (transportReply ops method outHdr b) := by
+  have hg : ∀ pl : Pl β, Coherent (⟨b.status, (b.hdr.del keyCE).del keyCL, -1, pl⟩ : Resp β) := by
+    intro pl
+    constructor
+    · intro _; exact Hdr.get_del_same _ _
+    · intro h; simp at h
   unfold transportReply
-  simp only []
   split
   · exact hb
   · split
-    · constructor
-      · intro _
-        show ((b.hdr.del keyCE).del keyCL).get keyCL = []
-        exact Hdr.get_del_same _ _
-      · intro h; simp at h
+    · split
+      · exact hg _
+      · exact hg _
     · exact hb
 
-/-- **End to end, every adaptor combination**: in buffered mode (response limit in force ≥ 0), for every
-client request, every RequestAdaptor (method / path / host / header / body / compress / decompress), every
-`compression:` setting, every limit at the four levels, every ResponseAdaptor whose header section does not
-name Content-Length, and every coherent backend reply to a non-HEAD request: whatever reaches the client —
-the proxied response or the Proxy's own failure response — is well-framed. -/
-theorem e2e_response_well_framed (canon : String → String) (cfg : Cfg) (q : ClientReq β) (reply : BackendReply β)
-    (htake : ∀ n b, n ≤ ops.len b → ops.len (ops.take n b) = n)
-    (hbuf : 0 ≤ Payload.normLimit cfg.dflt (Payload.effLimit cfg.poolMax cfg.proxyMax))
-    (hhead : (q.method == "HEAD") = false)
-    (had : ∀ a, cfg.respAd = some a → keyCL ∉ a.hkeys)
-    (hb : Coherent (⟨reply.status, reply.hdr, reply.cl, .stream reply.body⟩ : Resp β))
-    (seen : BackendSeen β) (cl : Resp β) (ok : Bool)
-    (hr : run ops canon cfg q reply = .proxied seen cl ok) : WellFramed ops cl := by
+/-- … and honest whenever the backend is (for a non-HEAD request; after the gunzip no length is declared). -/
+theorem transportReply_honest (method : String) (outHdr : Hdr) (b : BackendReply β)
+    (hm : (method == "HEAD") = false) (hb : HonestReply ops b) :
+    HonestResp ops (transportReply ops method outHdr b) := by
+  unfold transportReply HonestResp
+  simp only [hm, Bool.false_eq_true, if_false]
+  split
+  · split <;> (intro h; simp at h)
+  · exact hb
+
+/-- A coherent, honest response is well-framed (as a stream or buffered). -/
+theorem wellFramed_of_coherent_honest (r : Resp β) (hc : Coherent r) (hh : HonestResp ops r) : WellFramed ops r := by
+  by_cases h : 0 ≤ r.cl
+  · right; rw [hc.2 h, hh h]
+  · left; exact hc.1 (by omega)
+
+theorem proxyCompress_honest (minLength : Nat) (reqHdr : Hdr) (r : Resp β) (h : HonestResp ops r) :
+    HonestResp ops (proxyCompress ops minLength reqHdr r) := by
+  unfold proxyCompress
+  split
+  · exact h
+  · split
+    · exact h
+    · split
+      · exact h
+      · intro hc; simp at hc
+
+theorem compressed_coherent (cfg : Cfg) (outHdr : Hdr) (r : Resp β) (h : Coherent r) :
+    Coherent (compressed ops cfg outHdr r) := by
+  unfold compressed
+  cases cfg.compression with
+  | none => exact h
+  | some ml => exact proxyCompress_coherent ops ml outHdr r h
+
+theorem compressed_honest (cfg : Cfg) (outHdr : Hdr) (r : Resp β) (h : HonestResp ops r) :
+    HonestResp ops (compressed ops cfg outHdr r) := by
+  unfold compressed
+  cases cfg.compression with
+  | none => exact h
+  | some ml => exact proxyCompress_honest ops ml outHdr r h
+
+/-- In buffered mode whatever `fetchOrFail` returns came out of `FetchPayload`: a failing body reader is an
+error there. -/
+theorem fetchOrFail_buffered (cfg : Cfg) (isHead fails : Bool) (r1 r2 : Resp β)
+    (hnn : ¬ Payload.normLimit cfg.dflt (Payload.effLimit cfg.poolMax cfg.proxyMax) < 0)
+    (h : fetchOrFail ops cfg isHead fails r1 = some r2) :
+    fetchPayload ops cfg.dflt (Payload.effLimit cfg.poolMax cfg.proxyMax) isHead r1 = some r2 := by
+  unfold fetchOrFail at h
+  split at h
+  · exfalso
+    generalize hff : Payload.fetchFailing cfg.dflt (Payload.effLimit cfg.poolMax cfg.proxyMax) _ = o at h
+    cases o with
+    | stream => exact fetchFailing_not_stream _ _ _ hnn hff
+    | ok n => cases h
+    | tooLarge => cases h
+    | shortRead => cases h
+  · exact h
+
+/-- In stream mode `fetchOrFail` hands `r1` on as a stream, status and header untouched — whether or not its
+reader is going to fail. -/
+theorem fetchOrFail_stream (cfg : Cfg) (isHead fails : Bool) (r1 : Resp β)
+    (hs : Payload.normLimit cfg.dflt (Payload.effLimit cfg.poolMax cfg.proxyMax) < 0) :
+    fetchOrFail ops cfg isHead fails r1 = some { r1 with payload := .stream r1.payload.content } := by
+  unfold fetchOrFail
+  split
+  · simp [Payload.fetchFailing, hs]
+  · simp [fetchPayload, Payload.fetchResp, hs]
+
+/-- Anatomy of a proxied result of `run`: the request `prepare` built, and either the Proxy failed (500, nothing
+of the backend's answer is handed on) or its response went through the downstream adaptors. -/
+theorem run_proxied (canon : String → String) (cfg : Cfg) (q : ClientReq β) (reply : BackendReply β)
+    (seen : BackendSeen β) (cl : Resp β) (ok : Bool) (hr : run ops canon cfg q reply = .proxied seen cl ok) :
+    ∃ m, prepare ops canon cfg q = .ready m seen ∧
+      ((proxyResp ops cfg q.method seen.hdr reply = none ∧ cl = failureResp ops 500 ∧ ok = false) ∨
+       ∃ r2, proxyResp ops cfg q.method seen.hdr reply = some r2 ∧ cl = adaptorChain ops (downstream cfg) r2 ∧ ok = true) := by
   unfold run at hr
   cases hp : prepare ops canon cfg q with
   | early st => rw [hp] at hr; cases hr
@@ -1080,54 +1168,350 @@ theorem e2e_response_well_framed (canon : String → String) (cfg : Cfg) (q : Cl
     | none =>
       rw [hpr] at hr
       simp only [Result.proxied.injEq] at hr
-      obtain ⟨_, h2, _⟩ := hr
-      subst h2
-      left; rfl
+      obtain ⟨h1, h2, h3⟩ := hr
+      subst h1
+      exact ⟨m, rfl, Or.inl ⟨hpr, h2.symm, h3.symm⟩⟩
     | some r2 =>
       rw [hpr] at hr
       simp only [Result.proxied.injEq] at hr
-      obtain ⟨_, h2, _⟩ := hr
-      subst h2
-      have hds : ∀ a ∈ downstream cfg, keyCL ∉ a.hkeys := by
-        intro a ha
-        unfold downstream at ha
-        cases hra : cfg.respAd with
-        | none => rw [hra] at ha; simp at ha
-        | some a' => rw [hra] at ha; simp at ha; rw [ha]; exact had a' hra
-      apply pipeline_of_transformations_well_framed ops _ hds
-      -- r2 comes out of FetchPayload on a coherent response
-      have hr0 := transportReply_coherent ops q.method s.hdr reply hb
-      have hnn : ¬ Payload.normLimit cfg.dflt (Payload.effLimit cfg.poolMax cfg.proxyMax) < 0 := by omega
-      have hfin : ∀ r1 : Resp β, Coherent r1 →
-          fetchPayload ops cfg.dflt (Payload.effLimit cfg.poolMax cfg.proxyMax) false r1 = some r2 → WellFramed ops r2 := by
-        intro r1 hc1 hf
-        have hstream : r2.payload.isStream = false := by
-          unfold fetchPayload Payload.fetchResp at hf
-          simp only [hnn, if_false, Bool.false_eq_true] at hf
-          cases hfe : Payload.fetch cfg.dflt (Payload.effLimit cfg.poolMax cfg.proxyMax) ⟨r1.cl, ops.len r1.payload.content⟩ with
-          | stream => exact absurd hfe (fetch_not_stream _ _ _ hnn)
-          | ok n => rw [hfe] at hf; cases hf; rfl
-          | tooLarge => rw [hfe] at hf; cases hf
-          | shortRead => rw [hfe] at hf; cases hf
-        exact framing_established_by_fetch ops _ _ r1 r2 htake hc1 hf hstream
-      unfold proxyResp at hpr
-      simp only [hhead] at hpr
-      cases hcomp : cfg.compression with
-      | none =>
-        simp only [hcomp, Bool.and_false, Bool.false_eq_true, if_false] at hpr
-        exact hfin _ hr0 hpr
-      | some ml =>
-        simp only [hcomp] at hpr
-        split at hpr
-        · -- short backend body behind the compressor: an error in buffered mode
-          exfalso
-          cases hff : Payload.fetchFailing cfg.dflt (Payload.effLimit cfg.poolMax cfg.proxyMax)
-              (ops.len (proxyCompress ops ml s.hdr (transportReply ops q.method s.hdr reply)).payload.content) with
-          | stream => exact fetchFailing_not_stream _ _ _ hnn hff
-          | ok n => rw [hff] at hpr; cases hpr
-          | tooLarge => rw [hff] at hpr; cases hpr
-          | shortRead => rw [hff] at hpr; cases hpr
-        · exact hfin _ (proxyCompress_coherent ops ml s.hdr _ hr0) hpr
+      obtain ⟨h1, h2, h3⟩ := hr
+      subst h1
+      exact ⟨m, rfl, Or.inr ⟨r2, hpr, h2.symm, h3.symm⟩⟩
+
+theorem downstream_no_CL (cfg : Cfg) (had : ∀ a, cfg.respAd = some a → keyCL ∉ a.hkeys) :
+    ∀ a ∈ downstream cfg, keyCL ∉ a.hkeys := by
+  intro a ha
+  unfold downstream at ha
+  cases hra : cfg.respAd with
+  | none => rw [hra] at ha; simp at ha
+  | some a' => rw [hra] at ha; simp at ha; rw [ha]; exact had a' hra
+
+theorem failureResp_wellFramed (code : Nat) : WellFramed ops (failureResp ops code) := Or.inl rfl
+
+/-- **End to end, buffered mode, every adaptor combination** (response limit in force ≥ 0): for every client
+request, every RequestAdaptor, every `compression:` setting, every limit at the four levels, every ResponseAdaptor
+whose header section does not name Content-Length, and every coherent backend reply — honest or not — to a
+non-HEAD request: whatever reaches the client (the proxied response or the Proxy's own failure response) is
+well-framed. -/
+theorem e2e_response_well_framed (canon : String → String) (cfg : Cfg) (q : ClientReq β) (reply : BackendReply β)
+    (htake : ∀ n b, n ≤ ops.len b → ops.len (ops.take n b) = n)
+    (hbuf : 0 ≤ Payload.normLimit cfg.dflt (Payload.effLimit cfg.poolMax cfg.proxyMax))
+    (hhead : (q.method == "HEAD") = false)
+    (had : ∀ a, cfg.respAd = some a → keyCL ∉ a.hkeys)
+    (hb : Coherent (⟨reply.status, reply.hdr, reply.cl, .stream reply.body⟩ : Resp β))
+    (seen : BackendSeen β) (cl : Resp β) (ok : Bool)
+    (hr : run ops canon cfg q reply = .proxied seen cl ok) : WellFramed ops cl := by
+  obtain ⟨m, _, h | ⟨r2, hpr, hcl, _⟩⟩ := run_proxied ops canon cfg q reply seen cl ok hr
+  · rw [h.2.1]; exact failureResp_wellFramed ops 500
+  · rw [hcl]
+    apply pipeline_of_transformations_well_framed ops _ (downstream_no_CL cfg had)
+    have hnn : ¬ Payload.normLimit cfg.dflt (Payload.effLimit cfg.poolMax cfg.proxyMax) < 0 := by omega
+    unfold proxyResp at hpr
+    have hf := fetchOrFail_buffered ops cfg _ _ _ r2 hnn hpr
+    rw [hhead] at hf
+    have hc1 := compressed_coherent ops cfg seen.hdr _ (transportReply_coherent ops q.method seen.hdr reply hb)
+    have hstream : r2.payload.isStream = false := by
+      have hf' := hf
+      unfold fetchPayload Payload.fetchResp at hf'
+      simp only [hnn, if_false, Bool.false_eq_true] at hf'
+      generalize hfe : Payload.fetch cfg.dflt (Payload.effLimit cfg.poolMax cfg.proxyMax) _ = o at hf'
+      cases o with
+      | stream => exact absurd hfe (fetch_not_stream _ _ _ hnn)
+      | ok n => cases hf'; rfl
+      | tooLarge => cases hf'
+      | shortRead => cases hf'
+    exact framing_established_by_fetch ops _ _ _ r2 htake hc1 hf hstream
+
+/-- **End to end, stream mode** (response limit in force < 0: nothing is buffered, the body reader itself is
+handed on), for an **honest** backend (a declared length is the number of bytes sent): the response the client
+is sent is well-framed — through the transparent gunzip, the Proxy's compression and every ResponseAdaptor
+not naming Content-Length. (A dishonest backend: see `clientAborted` / C07 `stream_short_body_aborted`.) -/
+theorem e2e_response_well_framed_stream (canon : String → String) (cfg : Cfg) (q : ClientReq β) (reply : BackendReply β)
+    (hs : Payload.normLimit cfg.dflt (Payload.effLimit cfg.poolMax cfg.proxyMax) < 0)
+    (hhead : (q.method == "HEAD") = false)
+    (had : ∀ a, cfg.respAd = some a → keyCL ∉ a.hkeys)
+    (hb : Coherent (⟨reply.status, reply.hdr, reply.cl, .stream reply.body⟩ : Resp β))
+    (hh : HonestReply ops reply)
+    (seen : BackendSeen β) (cl : Resp β) (ok : Bool)
+    (hr : run ops canon cfg q reply = .proxied seen cl ok) : WellFramed ops cl := by
+  obtain ⟨m, _, h | ⟨r2, hpr, hcl, _⟩⟩ := run_proxied ops canon cfg q reply seen cl ok hr
+  · rw [h.2.1]; exact failureResp_wellFramed ops 500
+  · rw [hcl]
+    apply pipeline_of_transformations_well_framed ops _ (downstream_no_CL cfg had)
+    unfold proxyResp at hpr
+    rw [fetchOrFail_stream ops cfg _ _ _ hs] at hpr
+    cases hpr
+    exact wellFramed_of_coherent_honest ops _
+      (compressed_coherent ops cfg seen.hdr _ (transportReply_coherent ops q.method seen.hdr reply hb))
+      (compressed_honest ops cfg seen.hdr _ (transportReply_honest ops q.method seen.hdr reply hhead hh))
+
+
+/-! #### Status and end-to-end response headers -/
+
+theorem adaptorHandle_status (a : AdSpec) (r : Resp β) : (adaptorHandle ops a r).status = r.status := by
+  obtain ⟨st, h, cl, pl⟩ := r
+  cases pl <;>
+  · simp only [adaptorHandle, adaptorCore, adaptorBody, adaptorCompress, adaptorDecompress]
+    repeat' split
+    all_goals simp_all
+
+theorem transportReply_status_hdr (method : String) (outHdr : Hdr) (b : BackendReply β) (k : String)
+    (h1 : k ≠ keyCL) (h2 : k ≠ keyCE) :
+    (transportReply ops method outHdr b).status = b.status ∧ (transportReply ops method outHdr b).hdr.get k = b.hdr.get k := by
+  unfold transportReply
+  split
+  · exact ⟨rfl, rfl⟩
+  · split
+    · split <;> exact ⟨rfl, by simp only []; rw [Hdr.get_del_other _ h1, Hdr.get_del_other _ h2]⟩
+    · exact ⟨rfl, rfl⟩
+
+theorem proxyCompress_status_hdr (minLength : Nat) (reqHdr : Hdr) (r : Resp β) (k : String)
+    (h1 : k ≠ keyCL) (h2 : k ≠ keyCE) (h3 : k ≠ keyVary) :
+    (proxyCompress ops minLength reqHdr r).status = r.status ∧ (proxyCompress ops minLength reqHdr r).hdr.get k = r.hdr.get k := by
+  unfold proxyCompress
+  split
+  · exact ⟨rfl, rfl⟩
+  · split
+    · exact ⟨rfl, rfl⟩
+    · split
+      · exact ⟨rfl, rfl⟩
+      · refine ⟨rfl, ?_⟩
+        simp only []
+        rw [Hdr.get_add_other _ _ h3, Hdr.get_set_other _ _ h2, Hdr.get_del_other _ h1]
+
+theorem fetchPayload_status_hdr (dflt limit : Int) (isHead : Bool) (r r' : Resp β)
+    (h : fetchPayload ops dflt limit isHead r = some r') : r'.status = r.status ∧ r'.hdr = r.hdr := by
+  unfold fetchPayload at h
+  split at h <;> first | (cases h; exact ⟨rfl, rfl⟩) | cases h
+
+theorem proxyResp_status_hdr (cfg : Cfg) (method : String) (outHdr : Hdr) (reply : BackendReply β) (r2 : Resp β)
+    (k : String) (h1 : k ≠ keyCL) (h2 : k ≠ keyCE) (h3 : k ≠ keyVary)
+    (h : proxyResp ops cfg method outHdr reply = some r2) :
+    r2.status = reply.status ∧ r2.hdr.get k = reply.hdr.get k := by
+  have ht := transportReply_status_hdr ops method outHdr reply k h1 h2
+  have hr1' : (compressed ops cfg outHdr (transportReply ops method outHdr reply)).status = reply.status ∧
+      (compressed ops cfg outHdr (transportReply ops method outHdr reply)).hdr.get k = reply.hdr.get k := by
+    unfold compressed
+    cases cfg.compression with
+    | none => exact ht
+    | some ml =>
+      have hc := proxyCompress_status_hdr ops ml outHdr (transportReply ops method outHdr reply) k h1 h2 h3
+      exact ⟨hc.1.trans ht.1, hc.2.trans ht.2⟩
+  unfold proxyResp fetchOrFail at h
+  generalize compressed ops cfg outHdr (transportReply ops method outHdr reply) = r1 at h hr1'
+  split at h
+  · generalize Payload.fetchFailing cfg.dflt (Payload.effLimit cfg.poolMax cfg.proxyMax) _ = o at h
+    cases o with
+    | stream => cases h; exact hr1'
+    | ok n => cases h
+    | tooLarge => cases h
+    | shortRead => cases h
+  · obtain ⟨hs, hh⟩ := fetchPayload_status_hdr ops _ _ _ _ r2 h
+    rw [hs, hh]; exact hr1'
+
+/-- **The client receives the backend's status and end-to-end headers**: whenever the Proxy succeeds, in buffered
+or stream mode, with or without `compression:` / transparent gunzip / a ResponseAdaptor, the response leaving the
+pipeline has the backend's status code, and every header the backend sent — values, order, repeated lines —
+except the framing / encoding headers the proxy itself manages (`Content-Length`, `Content-Encoding`, `Vary`) and
+the keys a configured ResponseAdaptor `header:` section names. -/
+theorem run_status_headers (canon : String → String) (cfg : Cfg) (q : ClientReq β) (reply : BackendReply β)
+    (seen : BackendSeen β) (cl : Resp β)
+    (hr : run ops canon cfg q reply = .proxied seen cl true) :
+    cl.status = reply.status ∧
+    ∀ k, k ≠ keyCL → k ≠ keyCE → k ≠ keyVary → (∀ a, cfg.respAd = some a → k ∉ a.hkeys) →
+      cl.hdr.get k = reply.hdr.get k := by
+  obtain ⟨m, _, h | ⟨r2, hpr, hcl, _⟩⟩ := run_proxied ops canon cfg q reply seen cl true hr
+  · exact absurd h.2.2 (by decide)
+  · subst hcl
+    unfold downstream adaptorChain
+    cases hra : cfg.respAd with
+    | none =>
+      simp only [List.foldl_nil]
+      exact ⟨(proxyResp_status_hdr ops cfg q.method seen.hdr reply r2 "X" (by decide) (by decide) (by decide) hpr).1,
+        fun k h1 h2 h3 _ => (proxyResp_status_hdr ops cfg q.method seen.hdr reply r2 k h1 h2 h3 hpr).2⟩
+    | some a =>
+      simp only [List.foldl_cons, List.foldl_nil]
+      refine ⟨?_, ?_⟩
+      · rw [adaptorHandle_status]
+        exact (proxyResp_status_hdr ops cfg q.method seen.hdr reply r2 "X" (by decide) (by decide) (by decide) hpr).1
+      · intro k h1 h2 h3 hk
+        rw [respAdapt_header_other ops a r2 k (hk a rfl) h1 h2]
+        exact (proxyResp_status_hdr ops cfg q.method seen.hdr reply r2 k h1 h2 h3 hpr).2
+
+
+/-! #### The request the backend sees is `prepareRequest`'s; `targetURL` at `List Char` level -/
+
+/-- `targetURL` on characters: server URL, escaped path, then `?` + raw query when there is one — the shape
+`url_preserved` is stated for. -/
+theorem targetURL_toList (u ep rq : String) :
+    (targetURL u ep rq).toList = u.toList ++ (ep.toList ++ (if rq.toList = [] then [] else '?' :: rq.toList)) := by
+  unfold targetURL
+  by_cases h : rq = ""
+  · subst h; simp
+  · have h1 : (rq == "") = false := by simpa using h
+    have h2 : rq.toList ≠ [] := by
+      intro hl; apply h; exact String.ext (by simpa using hl)
+    simp [h1, h2, String.toList_append, List.append_assoc]
+
+/-- `url_preserved` for the `String`-level URL the model and the judge use: what follows the server URL in
+`targetURL` splits back (net/url: fragment at `#`, query at `?`) into exactly the escaped path and raw query. -/
+theorem targetURL_preserved (u ep rq : String) (h1 : '?' ∉ ep.toList) (h2 : '#' ∉ ep.toList) (h3 : '#' ∉ rq.toList) :
+    ∃ rest, (targetURL u ep rq).toList = u.toList ++ rest ∧ splitTarget rest = (ep.toList, rq.toList) :=
+  ⟨_, targetURL_toList u ep rq, url_preserved ep.toList rq.toList h1 h2 h3⟩
+
+/-- **What `run` says the backend sees is `prepareRequest`'s output** (the function tied to pool.go by
+`prepare_regenerated_from_source`) applied to the request as the RequestAdaptor left it: method, URL, header,
+body, and the Host the transport puts on the wire. -/
+theorem prepare_seen_eq_prepareRequest (canon : String → String) (cfg : Cfg) (q : ClientReq β)
+    (m : ReqMsg β) (seen : BackendSeen β) (stub : β) (h : prepare ops canon cfg q = .ready m seen) :
+    let l : ReqLine := match cfg.reqAd with
+      | none => ⟨q.method, q.path, q.escapedPath, q.host⟩
+      | some _ => adaptReqLine cfg.σ cfg.esc cfg.reqLine ⟨q.method, q.path, q.escapedPath, q.host⟩
+    let o := prepareRequest canon hopHeaders cfg.server false stub
+      ⟨l.method, l.escapedPath, q.rawQuery, l.host, m.hdr, m.payload.content, m.payload.isStream⟩
+    seen.method = o.method ∧ seen.url = o.url ∧ seen.hdr = o.hdr ∧ o.payload = some seen.body ∧
+    seen.streamed = m.payload.isStream ∧ (l.host ≠ "" → seen.host = o.wireHost cfg.server) := by
+  unfold prepare at h
+  dsimp only at h
+  split at h
+  · cases h
+  · split at h
+    · cases h
+    · rename_i m' hm
+      simp only [Prepared.ready.injEq] at h
+      obtain ⟨h1, h2⟩ := h
+      subst h1; subst h2
+      refine ⟨rfl, rfl, rfl, by simp [prepareRequest], rfl, ?_⟩
+      intro hl
+      simp only [OutReq.wireHost, prepareRequest, hostSent]
+      by_cases hh : (!cfg.server.addrIsHostName || cfg.server.keepHost) = true
+      · simp only [hh, if_true]
+        have : ((match cfg.reqAd with
+            | none => (⟨q.method, q.path, q.escapedPath, q.host⟩ : ReqLine)
+            | some _ => adaptReqLine cfg.σ cfg.esc cfg.reqLine ⟨q.method, q.path, q.escapedPath, q.host⟩).host == "") = false := by
+          simpa using hl
+        rw [this]; rfl
+      · simp [hh]
+
+
+/-! #### Content: bit-exact after undoing the labelled encoding, through the whole of `run` -/
+
+theorem fetch_ok_len (dflt limit : Int) (d : Int) (a n : Nat) (hh : 0 ≤ d → d.toNat = a)
+    (h : Payload.fetch dflt limit ⟨d, a⟩ = .ok n) : n = a := by
+  unfold Payload.fetch at h
+  simp only [] at h
+  split at h
+  · cases h
+  · split at h
+    · cases h
+    · split at h
+      · split at h
+        · cases h; exact hh (by omega)
+        · cases h
+      · split at h
+        · cases h
+          rename_i hz
+          have : d = 0 := by simpa using hz
+          have := hh (by omega)
+          omega
+        · split at h
+          · cases h; omega
+          · split at h
+            · cases h
+            · cases h; omega
+
+/-- `FetchPayload` on an honest response keeps every body byte (buffered: exactly the declared / delivered
+bytes are taken; stream: the reader itself). `take` law: taking all bytes is the identity. -/
+theorem fetchPayload_content (dflt limit : Int) (r r' : Resp β)
+    (htakeAll : ∀ b, ops.take (ops.len b) b = b) (hh : HonestResp ops r)
+    (h : fetchPayload ops dflt limit false r = some r') :
+    r'.payload.content = r.payload.content ∧ r'.hdr = r.hdr := by
+  unfold fetchPayload at h
+  generalize hf : Payload.fetchResp dflt limit false ⟨r.cl, ops.len r.payload.content⟩ = o at h
+  cases o with
+  | stream => cases h; exact ⟨rfl, rfl⟩
+  | ok n =>
+    cases h
+    have hn : n = ops.len r.payload.content := by
+      unfold Payload.fetchResp at hf
+      simp only [Bool.false_eq_true, if_false] at hf
+      split at hf
+      · cases hf
+      · exact fetch_ok_len dflt limit r.cl _ n hh hf
+    refine ⟨?_, rfl⟩
+    show ops.take n r.payload.content = r.payload.content
+    rw [hn]; exact htakeAll _
+  | tooLarge => cases h
+  | shortRead => cases h
+
+/-- The transparent gunzip of the transport undoes exactly the label it removes. -/
+theorem transportReply_decoded (method : String) (outHdr : Hdr) (b : BackendReply β) (c : β)
+    (hm : (method == "HEAD") = false)
+    (hd : decoded ops (⟨b.status, b.hdr, b.cl, .stream b.body⟩ : Resp β) = some c) :
+    decoded ops (transportReply ops method outHdr b) = some c := by
+  unfold transportReply
+  simp only [hm, Bool.false_eq_true, if_false]
+  split
+  · rename_i hg
+    have hce : ((b.hdr.get keyCE).head? == some "gzip") = true := by
+      unfold gunzipApplies at hg
+      simp only [Bool.and_eq_true] at hg
+      exact hg.2
+    unfold decoded at hd
+    simp only [hce, if_true, Pl.content] at hd
+    rw [hd]
+    unfold decoded
+    simp only [Pl.content]
+    rw [Hdr.get_del_other _ ne_CE_CL, Hdr.get_del_same]
+    simp
+  · exact hd
+
+theorem compressed_decoded (hgz : ∀ b, ops.ungz (ops.gz b) = some b) (cfg : Cfg) (outHdr : Hdr) (r : Resp β) (c : β)
+    (h : decoded ops r = some c) : decoded ops (compressed ops cfg outHdr r) = some c := by
+  unfold compressed
+  cases cfg.compression with
+  | none => exact h
+  | some ml => exact content_roundtrip_proxyCompress ops hgz ml outHdr r c h
+
+/-- **content_roundtrip over `run`**: for an honest backend reply to a non-HEAD request, buffered or stream
+mode, with or without the transport's transparent gunzip, the Proxy's `compression:` and a body-less
+ResponseAdaptor (compress / decompress / header section not naming Content-Encoding): once the client undoes the
+Content-Encoding the response is labelled with, it holds exactly the content the backend's reply carried under
+*its* label — through `FetchPayload` (`take`) as well. -/
+theorem run_content_roundtrip (hgz : ∀ b, ops.ungz (ops.gz b) = some b) (htakeAll : ∀ b, ops.take (ops.len b) b = b)
+    (canon : String → String) (cfg : Cfg) (q : ClientReq β) (reply : BackendReply β) (c : β)
+    (hhead : (q.method == "HEAD") = false) (hh : HonestReply ops reply)
+    (had : ∀ a, cfg.respAd = some a → a.body = "" ∧ keyCE ∉ a.hkeys)
+    (hd : decoded ops (⟨reply.status, reply.hdr, reply.cl, .stream reply.body⟩ : Resp β) = some c)
+    (seen : BackendSeen β) (cl : Resp β)
+    (hr : run ops canon cfg q reply = .proxied seen cl true) : decoded ops cl = some c := by
+  obtain ⟨m, _, h | ⟨r2, hpr, hcl, _⟩⟩ := run_proxied ops canon cfg q reply seen cl true hr
+  · exact absurd h.2.2 (by decide)
+  · subst hcl
+    have hds : ∀ a ∈ downstream cfg, a.body = "" ∧ keyCE ∉ a.hkeys := by
+      intro a ha
+      unfold downstream at ha
+      cases hra : cfg.respAd with
+      | none => rw [hra] at ha; simp at ha
+      | some a' => rw [hra] at ha; simp at ha; rw [ha]; exact had a' hra
+    have h1 := compressed_decoded ops hgz cfg seen.hdr _ c (transportReply_decoded ops q.method seen.hdr reply c hhead hd)
+    have hh1 := compressed_honest ops cfg seen.hdr _ (transportReply_honest ops q.method seen.hdr reply hhead hh)
+    have h2 : decoded ops r2 = some c := by
+      unfold proxyResp fetchOrFail at hpr
+      generalize compressed ops cfg seen.hdr (transportReply ops q.method seen.hdr reply) = r1 at hpr h1 hh1
+      rw [hhead] at hpr
+      split at hpr
+      · generalize Payload.fetchFailing cfg.dflt (Payload.effLimit cfg.poolMax cfg.proxyMax) _ = o at hpr
+        cases o with
+        | stream => cases hpr; exact h1
+        | ok n => cases hpr
+        | tooLarge => cases hpr
+        | shortRead => cases hpr
+      · obtain ⟨hc, hhd⟩ := fetchPayload_content ops _ _ r1 r2 htakeAll hh1 hpr
+        unfold decoded at h1 ⊢
+        rw [hc, hhd]; exact h1
+    exact content_roundtrip ops hgz none seen.hdr (downstream cfg) hds r2 c h2
+
 
 end e2e
 /-! ### Non-vacuity and the witnesses against the unrepaired code -/
@@ -1191,6 +1575,57 @@ example :
     let q3 : PoolReq (List Nat) := ⟨"k1", "GET", [("Cache-Control", ["no-cache"])], none, ⟨500, [], -1, .bytes []⟩⟩
     (runHistory exOps ⟨[200], ["GET"], 100⟩ false [{ compress := true }] [] [q1, q2, q1, q3, q2, q1]).map (wellFramedB exOps)
       = [true, true, true, true, true, true] := by decide
+
+
+/-! non-vacuity for the end-to-end theorems: a concrete configuration (compression on, a ResponseAdaptor that
+adds a header, IP server) and a coherent, honest backend reply meet every hypothesis of
+`e2e_response_well_framed` (buffered) / `e2e_response_well_framed_stream` / `run_status_headers` /
+`run_content_roundtrip`, and `run` really is a successful `.proxied` there. -/
+private def exCfgE (poolMax : Int) : Cfg :=
+  { server := ⟨"http://127.0.0.1:9", "127.0.0.1:9", false, false⟩, compression := some 0, pathMax := 0, serverMax := 0,
+    poolMax := poolMax, proxyMax := 0, reqAd := none, respAd := some { hadd := [("X-Added", "1")] }, dflt := 4194304 }
+private def exQE : ClientReq (List Nat) :=
+  { method := "GET", escapedPath := "/a", rawQuery := "x=1", host := "client.example", hdr := [("Accept-Encoding", ["gzip"])],
+    declared := 0, body := [] }
+private def exReplyE : BackendReply (List Nat) := ⟨200, [("Content-Length", ["3"]), ("X-B", ["b"])], 3, [1, 2, 3]⟩
+
+example : Coherent (⟨exReplyE.status, exReplyE.hdr, exReplyE.cl, .stream exReplyE.body⟩ : Resp (List Nat)) ∧
+    HonestReply exOps exReplyE ∧ (∀ b : List Nat, exOps.take (exOps.len b) b = b) ∧
+    0 ≤ Payload.normLimit (exCfgE 0).dflt (Payload.effLimit (exCfgE 0).poolMax (exCfgE 0).proxyMax) ∧
+    Payload.normLimit (exCfgE (-1)).dflt (Payload.effLimit (exCfgE (-1)).poolMax (exCfgE (-1)).proxyMax) < 0 := by
+  refine ⟨⟨by decide, by decide⟩, by intro _; decide, ?_, by decide, by decide⟩
+  intro b; simp [exOps]
+
+example : (match run exOps id (exCfgE 0) exQE exReplyE with
+      | .proxied seen cl ok => (ok, seen.url, cl.status, wellFramedB exOps cl, cl.hdr.get "X-B", cl.hdr.get "X-Added", decoded exOps cl)
+      | _ => (false, "", 0, false, [], [], none))
+    = (true, "http://127.0.0.1:9/a?x=1", 200, true, ["b"], ["1"], some [1, 2, 3]) ∧
+    (match run exOps id (exCfgE (-1)) exQE exReplyE with
+      | .proxied _ cl ok => (ok, cl.status, cl.payload.isStream, wellFramedB exOps cl, decoded exOps cl)
+      | _ => (false, 0, false, false, none))
+    = (true, 200, true, true, some [1, 2, 3]) := ⟨by rfl, by rfl⟩
+
+
+/-! ### HEAD and the RequestAdaptor `method:` section (open known finding `C03-head-method-adapted`)
+
+Full statement (fails): *a client that sent HEAD is never sent body bytes*, i.e.
+`q.method = "HEAD" → bodyOnWire ops (adaptReqLine σ esc a q).method r = 0` for every adaptor `a`. -/
+
+/-- … proved when the adaptor leaves the method alone (or sets HEAD): net/http still knows the request was HEAD. -/
+theorem head_response_bodyless_partial {β : Type} (ops : BodyOps β) (σ : Nat → String → String → String)
+    (esc : String → String) (a : ReqLineAd) (q : ReqLine) (r : Resp β)
+    (hq : q.method = "HEAD") (ha : a.method = "" ∨ a.method = "HEAD") :
+    bodyOnWire ops (adaptReqLine σ esc a q).method r = 0 := by
+  have hm : (adaptReqLine σ esc a q).method = "HEAD" := by
+    rw [(adaptReqLine_method_host σ esc a q).1]
+    rcases ha with ha | ha <;> simp [ha, hq]
+  simp [bodyOnWire, hm]
+
+/-- The excluded case is a genuine defect (reproduced over loopback, replay in corpus/C03/e2e.jsonl): `method: GET`
+on a HEAD request makes `SetMethod` rewrite the very `*http.Request` net/http decides from, and the backend's 3 body
+bytes go out to a client that expects none. -/
+example : bodyOnWire exOps (adaptReqLine (fun _ p _ => p) id { method := "GET" } ⟨"HEAD", "/a", "/a", "h"⟩).method exResp = 3 := by
+  decide
 
 
 end EgVerif.C03
